@@ -66,6 +66,7 @@ class Expect:
                 self.styles[ty][s.attributes["w:styleId"]] = s.find_child_or_null("w:name").attributes.get("w:val")
         self.rels = {i: t for i, t, ty in pkg.rels}
         self.refs = set()
+        self.crefs = set()      # comments whose reference the conversion reaches
         self.convert = True
         self.levels = self._levels()
 
@@ -182,6 +183,9 @@ class Expect:
                 self.walk(n.children)
             elif nm in ("w:footnoteReference", "w:endnoteReference"):
                 self.refs.add((nm[2:-9], n.attributes.get("w:id")))
+            elif nm == "w:commentReference":
+                if self.convert:
+                    self.crefs.add(n.attributes.get("w:id"))
             elif nm in IGNORED or nm in LEAVES:
                 pass
             else:
@@ -219,7 +223,8 @@ class Expect:
         self.convert = True
         self.pending = []
         for c in self.pkg.comments or []:
-            if comments_rendered:
+            # a comment is converted only when comment references are rendered AND a reference to it was reached
+            if comments_rendered and c.attributes.get("w:id") in self.crefs:
                 self.walk(c.children)
             else:
                 # the comments part is always READ (reader warnings), but its paragraphs are converted only when rendered
